@@ -533,3 +533,6 @@ fn del_to_delay_ms(del: u8) -> u32 {
         _ => region::constants::RECEIVE_DELAY1,
     }
 }
+
+#[cfg(lora_rs_verif)]
+pub mod verif;
